@@ -275,7 +275,15 @@ func (g *genCtx) drawModule(name string, label string) *Module {
 		m.Consts = append(m.Consts, Const{"int", "MAXN" + name, "0x10"}, Const{"string", "GREETING" + name, "\"hello world\""},
 			Const{"double", "RATIO" + name, "0.25"}, Const{"bool", "ENABLED" + name, "true"}, Const{"unsigned short", "PORT" + name, "65535"})
 	}
+	// an enum-only module (no struct, no constant): its types file consists of the enums
+	enumOnly := ne > 0 && g.pick(6, label+".enumonly") == 0
+	if enumOnly {
+		m.Consts = nil
+	}
 	ns := rapid.IntRange(1, 5).Draw(g.rt, label+".nstruct")
+	if enumOnly {
+		ns = 0
+	}
 	for i := 0; i < ns; i++ {
 		sname := fmt.Sprintf("S%s%d", name, i)
 		if g.pick(4, label+".lower") == 0 {
@@ -292,7 +300,7 @@ func (g *genCtx) drawModule(name string, label string) *Module {
 	// a "container matrix" struct: every container kind holding every kind of inner value
 	// (byte vectors, vectors, maps, strings, structs), so that each program has the nested
 	// combinations a drawn type reaches only rarely (e.g. map<K, vector<byte>>)
-	if g.pick(2, label+".matrix") == 0 {
+	if !enumOnly && g.pick(2, label+".matrix") == 0 {
 		sname := fmt.Sprintf("SC%s", name)
 		st := &rc.StructJ{Module: name, Name: sname}
 		bytesT := func() *rc.TypeJ {
@@ -334,7 +342,7 @@ func (g *genCtx) drawModule(name string, label string) *Module {
 	// a "boundary" struct: optional members just below the extended-tag boundary followed
 	// by members with tags 15, 16 and 255 (two-byte heads); declared last so that the
 	// interfaces below tend to use it
-	if g.pick(3, label+".boundary") > 0 {
+	if !enumOnly && g.pick(3, label+".boundary") > 0 {
 		sname := fmt.Sprintf("SB%s", name)
 		st := &rc.StructJ{Module: name, Name: sname}
 		tags := []int{rapid.IntRange(0, 12).Draw(g.rt, label+".btag0"), 13, 14, 15, 16, 255}
